@@ -243,7 +243,7 @@ func c14Witnesses(rec *ev.Rec) {
 			return false
 		})
 		if m == nil {
-			return false, ""
+			return noWitnessTree()
 		}
 		gs := model.Build(m)
 		for _, n := range goNodes(gs) {
@@ -273,7 +273,7 @@ func c14Witnesses(rec *ev.Rec) {
 			return false
 		})
 		if m == nil {
-			return false, ""
+			return noWitnessTree()
 		}
 		gs := model.Build(m)
 		for _, n := range goNodes(gs) {
@@ -298,6 +298,7 @@ func TestC14(t *testing.T) {
 	rec := ev.Start(t, "C14")
 	rec.Rule(c14R)
 	c14Witnesses(rec)
+	checkWitnesses(t)
 	cnt := newCounter()
 	rapid.Check(t, func(rt *rapid.T) {
 		v := th.PickVariant(rt, th.AllVariants...)
